@@ -464,6 +464,41 @@ pub fn case(seed: u64, st: &mut Stats) {
             Ok(Ok(_)) => {}
         }
     }
+    // the generated `help` subcommand of an explicitly built command carries a copy of the
+    // subcommand tree: its own help (`prog help help`, or rendered from the definition) must not
+    // list what is hidden either
+    if !spec.subs.is_empty() && !spec.has(Setting::DisableHelpSubcommand) && !spec.subs.iter().any(|s| s.name == "help") && rng.chance(1, 2) {
+        let hidden: Vec<&CmdSpec> = spec.subs.iter().filter(|s| s.has(Setting::Hide)).collect();
+        let mut texts: Vec<(String, String)> = vec![];
+        let r = catch(|| {
+            let mut b2 = cmd.clone();
+            b2.build();
+            let mut out = vec![];
+            if let Err(e) = b2.try_get_matches_from_mut(["prog", "help", "help"]) {
+                out.push(("prog help help".to_string(), e.render().to_string()));
+            }
+            if let Some(h) = b2.find_subcommand_mut("help") {
+                out.push(("help.render_help".to_string(), h.render_help().to_string()));
+                out.push(("help.render_long_help".to_string(), h.render_long_help().to_string()));
+            }
+            out
+        });
+        st.eval();
+        match r {
+            Err(p) => st.violation(format!("panic:help-of-help@{}", p.loc), format!("{} | {}", p.msg, ctx())),
+            Ok(o) => texts = o,
+        }
+        for (what, text) in &texts {
+            st.count("helpsub.own-help-rendered");
+            for h in &hidden {
+                st.count("hidden.subcommand-checked-in-help-of-help");
+                if text.contains(h.name.as_str()) {
+                    st.violation("c12:hidden-subcommand-shown:help-of-help", format!("{} in {} | {}", h.name, what, ctx()));
+                    break;
+                }
+            }
+        }
+    }
     // width sweep (thorough: all widths; quick: a few) for totality
     let widths: Vec<usize> = if st.tier_thorough && rng.chance(1, 10) { (0..=200).collect() } else { (0..4).map(|_| rng.below(201)).collect() };
     for w2 in widths {
